@@ -57,6 +57,8 @@ RRep(ml) == {Normal, Disabled}
             \cup {[kind |-> "Special", tomods |-> tm, letters |-> ls, delay |-> 50, interval |-> 30]: tm \in ToMods(ml), ls \in {<<" ","Y">>} \cup (IF Size >= 2 THEN {<<"x">>, <<>>} ELSE {})}
             \* as many repeat letters as the longest letters string has characters, trailing blank included (one more would be refused)
             \cup {[kind |-> "Special", tomods |-> <<>>, letters |-> <<"q"," ","e","r">>, delay |-> 50, interval |-> 30]}
+            \* boundary timings on a ROW (rows and single mappings are parsed by different functions): zero and negative values
+            \cup {[kind |-> "Special", tomods |-> <<>>, letters |-> <<" ","Y">>, delay |-> d, interval |-> i]: d \in {0, -5}, i \in {0, -1}}
 RowsFor(ml) ==
   {[ty |-> "row", mods |-> ml, row |-> r, tomods |-> tm, letters |-> ls, rep |-> rp, abs |-> ab2]:
      r \in RowNames, tm \in ToMods(ml), ls \in Letters, rp \in RRep(ml),
@@ -100,7 +102,13 @@ Progs4 == UNION {UNION {{ab \o <<RowAS(ml), SingleS(ml), RepS(ml, r)>>, ab \o <<
 \* what a repeat-only entry must leave alone: the output modifiers and the absorbing list of the mapping it adjusts
 Rich(ab) == {s \in Singles(ab): s.rep = Normal /\ (s.abs # <<>> \/ s.tomods # <<>>)}
 Progs5 == UNION {UNION {{ab \o <<it, ro>>: ro \in {x \in RepOnlys(ab): x.key = "A" /\ x.mods = it.mods}}: it \in Rich(ab)}: ab \in AliasBlocks}
-Progs == SetToSeq(Progs1 \cup Progs2 \cup Progs3 \cup Progs4 \cup Progs5 \cup CharProgs)
+\* two mappings whose trigger lists are permutations of each other with different LAST keys (different mappings: the last key is
+\* the trigger key) and a repeat-only entry for one of them: it must not reach the other
+Perm(m, k, t) == [ty |-> "single", mods |-> <<K(m)>>, key |-> k, tomods |-> <<>>, toterm |-> <<t>>, rep |-> Normal, abs |-> <<>>]
+Progs6 == {<<Perm("J", "A", "B"), Perm("A", "J", "F13"), [ty |-> "reponly", mods |-> <<K("J")>>, key |-> "A", rep |-> r]>>: r \in {Disabled, [kind |-> "Special", tomods |-> <<>>, toterm |-> <<"F24">>, delay |-> 180, interval |-> 30]}}
+          \cup {<<Perm("LEFTSHIFT", "RIGHTSHIFT", "B"), Perm("RIGHTSHIFT", "LEFTSHIFT", "F13"), [ty |-> "reponly", mods |-> <<K("LEFTSHIFT")>>, key |-> "RIGHTSHIFT", rep |-> Disabled]>>,
+                 <<[ty |-> "reponly", mods |-> <<K("A")>>, key |-> "J", rep |-> Disabled], Perm("J", "A", "B")>>}
+Progs == SetToSeq(Progs1 \cup Progs2 \cup Progs3 \cup Progs4 \cup Progs5 \cup Progs6 \cup CharProgs)
 
 Sp0 == [bare |-> TRUE, lower |-> FALSE, explicit |-> FALSE]
 Sp1 == [bare |-> FALSE, lower |-> TRUE, explicit |-> TRUE]
